@@ -97,7 +97,10 @@ def generate(seed, tier):
         g2 = rw.choice([1.0, -1.0, 2.0, 0.5, -3.0, 7.0])
         data2 = dict(data, recipe=rw.choice(["noise", "multisine", "randwalk"]), rng=rw.randrange(2 ** 31), N=N + d2)
         refills.append({"law": law2, "g": g2, "d": d2, "data": data2})
+    # fault injection: the k-th next segment gather of the NumPy backend cannot allocate its block (one-shot MemoryError)
+    alloc_fault = rw.choice([1, 1, 2, 3, 5]) if rw.random() < 0.2 else None
     return {"law": law, "g": g, "d": d, "N": N, "data": data, "cfg": cfg, "singles": singles, "refills": refills, "pre_access": pre_access, "auto_first": auto_first, "rows_of_recording": rows_of_recording, "concurrent_decoy": concurrent_decoy, "fortran_buffer": fortran_buffer,
+            "alloc_fault": alloc_fault,
             "worlds": [W.gen_world(rf, k, 8) for k in kinds], "clock": CK.gen_clock(R.stream(seed, "clock"), p_none=0.5)}
 
 
@@ -191,6 +194,21 @@ def _execute_stage(sc, out, buf, stage):
                         res, _dres = W.run_concurrently(ctx, [an.compute, decoy.compute])     # another caller at the same time
                         out.count("two_concurrent_callers")
                     except Exception:
+                        res = an.compute()
+                elif world == "numpy" and sc.get("alloc_fault"):
+                    # whatever the library does about a failed allocation, a result it returns obeys the laws
+                    res = None
+                    with W.AllocFault() as af:
+                        af.arm(sc["alloc_fault"])
+                        try:
+                            res = an.compute()
+                        except MemoryError:
+                            out.count("alloc_fault_fired_and_propagated")
+                        finally:
+                            af.disarm()
+                        if res is not None and af.fired:
+                            out.count("alloc_fault_survived_by_library")
+                    if res is None:
                         res = an.compute()
                 else:
                     res = an.compute()
